@@ -41,12 +41,82 @@ func dimacs(f [][]int, n int) string {
 	return sb.String()
 }
 
-// Run executes the task and returns a textual observation (verdict, model, learned-clause trace,
-// statistics, count, optimum or MUS). Panics are part of the observation.
-func (t Task) Run() (obs string) {
+// sat evaluates a CNF under a model.
+func satisfies(f [][]int, m []bool) bool {
+	for _, c := range f {
+		ok := false
+		for _, l := range c {
+			v := l
+			if v < 0 {
+				v = -v
+			}
+			if v <= len(m) && (l > 0) == m[v-1] {
+				ok = true
+				break
+			}
+		}
+		if !ok {
+			return false
+		}
+	}
+	return true
+}
+
+// bruteSat decides a CNF over n <= 20 variables by enumeration.
+func bruteSat(f [][]int, n int) bool {
+	m := make([]bool, n)
+	for a := 0; a < 1<<uint(n); a++ {
+		for i := range m {
+			m[i] = a>>uint(i)&1 == 1
+		}
+		if satisfies(f, m) {
+			return true
+		}
+	}
+	return false
+}
+
+// musOK: sub-multiset of f, unsatisfiable, and (if minimal) no clause can be dropped.
+func musOK(f, mus [][]int, n int, minimal bool) bool {
+	cnt := map[string]int{}
+	for _, c := range f {
+		cnt[fmt.Sprint(c)]++
+	}
+	for _, c := range mus {
+		k := fmt.Sprint(c)
+		if cnt[k] == 0 {
+			return false
+		}
+		cnt[k]--
+	}
+	if bruteSat(mus, n) {
+		return false
+	}
+	if minimal {
+		for i := range mus {
+			rest := append(append([][]int{}, mus[:i]...), mus[i+1:]...)
+			if !bruteSat(rest, n) {
+				return false
+			}
+		}
+	}
+	return true
+}
+
+// Run executes the task and returns its semantic observation: what the property says must be
+// the same as in a solo run (verdict, validity of the model, count, optimum, validity of the MUS).
+// RunRaw additionally returns the complete textual observation (exact model, learned-clause trace,
+// statistics), which is compared for information only. Panics are part of the observation.
+func (t Task) Run() string {
+	sem, _ := t.RunRaw()
+	return sem
+}
+
+func (t Task) RunRaw() (obs string, raw string) {
 	defer func() {
 		if e := recover(); e != nil {
 			obs = fmt.Sprintf("PANIC %v", e)
+			raw = obs
 		}
 	}()
 	switch t.Kind {
@@ -67,13 +137,16 @@ func (t Task) Run() (obs string) {
 			lines = append(lines, l)
 		}
 		m := ""
+		valid := true
 		if st == solver.Sat {
 			m = fmt.Sprint(s.Model())
+			valid = satisfies(t.F, s.Model())
 		}
-		return fmt.Sprintf("%v %s cert=%v stats=%+v", st, m, lines, s.Stats)
+		return fmt.Sprintf("%v model-valid=%v", st, valid), fmt.Sprintf("%v %s cert=%v stats=%+v", st, m, lines, s.Stats)
 	case "count":
 		pb := solver.ParseSliceNb(cp(t.F), t.N)
-		return fmt.Sprintf("count=%d", solver.New(pb).CountModels())
+		o := fmt.Sprintf("count=%d", solver.New(pb).CountModels())
+		return o, o
 	case "optimal":
 		pb := solver.ParseSliceNb(cp(t.F), t.N)
 		lits := make([]solver.Lit, len(t.Cost))
@@ -82,7 +155,8 @@ func (t Task) Run() (obs string) {
 		}
 		pb.SetCostFunc(lits, nil)
 		r := solver.New(pb).Optimal(nil, nil)
-		return fmt.Sprintf("%v %v %d", r.Status, r.Model, r.Weight)
+		valid := r.Status != solver.Sat || satisfies(t.F, r.Model)
+		return fmt.Sprintf("%v cost=%d model-valid=%v", r.Status, r.Weight, valid), fmt.Sprintf("%v %v %d", r.Status, r.Model, r.Weight)
 	case "maxsat":
 		var cs []maxsat.Constr
 		for i, c := range t.F {
@@ -106,11 +180,11 @@ func (t Task) Run() (obs string) {
 			keys = append(keys, fmt.Sprintf("%s=%v", k, v))
 		}
 		sort.Strings(keys)
-		return fmt.Sprintf("cost=%d model=%v", cost, keys)
+		return fmt.Sprintf("cost=%d sat=%v", cost, m != nil), fmt.Sprintf("cost=%d model=%v", cost, keys)
 	case "mus", "subset":
 		pb, err := explain.ParseCNF(strings.NewReader(dimacs(t.F, t.N)))
 		if err != nil {
-			return "parse error " + err.Error()
+			return "parse error " + err.Error(), ""
 		}
 		var res *explain.Problem
 		if t.Kind == "mus" {
@@ -119,9 +193,9 @@ func (t Task) Run() (obs string) {
 			res, err = pb.UnsatSubset()
 		}
 		if err != nil {
-			return "err " + err.Error()
+			return "err " + err.Error(), "err"
 		}
-		return fmt.Sprintf("mus=%v", res.Clauses)
+		return fmt.Sprintf("%s-valid=%v", t.Kind, musOK(t.F, res.Clauses, t.N, t.Kind == "mus")), fmt.Sprintf("mus=%v", res.Clauses)
 	case "bf":
 		var cl []bf.Formula
 		for _, c := range t.F {
@@ -141,26 +215,35 @@ func (t Task) Run() (obs string) {
 			keys = append(keys, fmt.Sprintf("%s=%v", k, v))
 		}
 		sort.Strings(keys)
-		return fmt.Sprintf("bf=%v sat=%v", keys, m != nil)
+		valid := true
+		if m != nil {
+			mm := make([]bool, t.N)
+			for i := range mm {
+				mm[i] = m[fmt.Sprintf("v%d", i+1)]
+			}
+			valid = satisfies(t.F, mm)
+		}
+		return fmt.Sprintf("sat=%v model-valid=%v", m != nil, valid), fmt.Sprintf("bf=%v sat=%v", keys, m != nil)
 	}
-	return "unknown task"
+	return "unknown task", ""
 }
 
-// RunTogether runs the tasks as concurrent threads and returns their observations.
-func RunTogether(ts []Task) []string {
-	out := make([]string, len(ts))
+// RunTogether runs the tasks as concurrent threads and returns their semantic and raw observations.
+func RunTogether(ts []Task) (sem []string, raw []string) {
+	sem = make([]string, len(ts))
+	raw = make([]string, len(ts))
 	done := make(chan int, len(ts))
 	for i := range ts {
 		i := i
 		xGo(func() {
-			out[i] = ts[i].Run()
+			sem[i], raw[i] = ts[i].RunRaw()
 			xSend(done, i)
 		})
 	}
 	for range ts {
 		xRecv(done)
 	}
-	return out
+	return sem, raw
 }
 
 // Stream is what a consumer observed on a result or model channel.
